@@ -12,10 +12,12 @@ import (
 	"sort"
 
 	"github.com/go-shiori/dom"
+	"github.com/markusmobius/go-domdistiller/data"
 	"github.com/markusmobius/go-domdistiller/internal/domutil"
 	"github.com/markusmobius/go-domdistiller/internal/extractor"
 	"github.com/markusmobius/go-domdistiller/internal/extractor/embed"
 	"github.com/markusmobius/go-domdistiller/internal/label"
+	"github.com/markusmobius/go-domdistiller/internal/markup"
 	"github.com/markusmobius/go-domdistiller/internal/stringutil"
 	"github.com/markusmobius/go-domdistiller/internal/tableclass"
 	"github.com/markusmobius/go-domdistiller/internal/webdoc"
@@ -182,4 +184,36 @@ func VerifEmbedProbe(n *html.Node, pageURL *nurl.URL) map[string]string {
 	probe("vimeo", embed.NewVimeoExtractor(pageURL, nil))
 	probe("youtube", embed.NewYouTubeExtractor(pageURL, nil))
 	return out
+}
+
+// VerifSource is what one markup accessor answers.
+type VerifSource struct {
+	Kind        string // Go type of the accessor
+	Title       string
+	Type        string
+	URL         string
+	Description string
+	Publisher   string
+	Copyright   string
+	Author      string
+	Images      []data.MarkupImage
+	Article     *data.MarkupArticle
+	OptOut      bool
+}
+
+// VerifMarkup builds the real markup.Parser for root (the element the extractor would use) and
+// returns the answers of each accessor in list order plus the combined MarkupInfo.
+func VerifMarkup(root *html.Node) ([]VerifSource, data.MarkupInfo) {
+	document := dom.QuerySelector(root, "html")
+	if document == nil {
+		document = root
+	}
+	ps := markup.NewParser(document, &data.TimingInfo{})
+	var out []VerifSource
+	for _, a := range ps.VerifAccessors() {
+		out = append(out, VerifSource{Kind: fmt.Sprintf("%T", a), Title: a.Title(), Type: a.Type(), URL: a.URL(),
+			Description: a.Description(), Publisher: a.Publisher(), Copyright: a.Copyright(), Author: a.Author(),
+			Images: a.Images(), Article: a.Article(), OptOut: a.OptOut()})
+	}
+	return out, ps.MarkupInfo()
 }
